@@ -41,7 +41,8 @@ class Potential:
     def __init__(self, rng, d):
         self.d = d
         self.kind = str(rng.choice(["quartic", "gauss", "banana"])) if d >= 2 else str(rng.choice(["quartic", "gauss"]))
-        self.s = 10.0 ** rng.uniform(-2, 2)
+        # parameter scale: mostly moderate, sometimes extreme (micro-units, or 1e6): everything below is expressed in units of s
+        self.s = 10.0 ** (rng.uniform(-2, 2) if rng.random() < 0.65 else rng.uniform(-8, 6))
         A = rng.normal(size=(d, d))
         self.P = A @ A.T / d + 0.5 * np.eye(d)
         self.lam = 0.05 if self.kind == "quartic" else 0.0
@@ -314,30 +315,61 @@ def run_job(job, rec):
         def grad(self, t):
             return self.pot.grad(np.asarray(t, float) - self.c)
 
+    class HardWalled:
+        """A log-density that does not exist outside the box the user declares as bounds (what bounds are for)."""
+
+        def __init__(self, inner, lo, hi):
+            self.inner, self.lo, self.hi = inner, lo, hi
+            self.outside_calls = 0
+
+        def __call__(self, t):
+            t = np.asarray(t, float)
+            if np.any(t < self.lo) or np.any(t > self.hi):
+                self.outside_calls += 1
+                return -np.inf
+            return self.inner(t)
+
     for c in range(max(4, job["n_cfg"] // 3)):
         d = int(rng.choice([1, 2, 3]))
         pot = Potential(rng, d)
         s = pot.s
-        centre = rng.choice([-1.0, 1.0], size=d) * s * 10.0 ** rng.uniform(3, 6.5, size=d)
+        far = bool(c % 2 == 0)
+        centre = rng.choice([-1.0, 1.0], size=d) * s * (10.0 ** rng.uniform(3, 6.5, size=d) if far else rng.uniform(0.0, 3.0, size=d))
         sp = Shifted(pot, centre)
         lo, hi = centre - s * rng.uniform(0.5, 2, size=d), centre + s * rng.uniform(0.5, 2, size=d)
+        hard = bool(rng.random() < 0.6)
         T = float(rng.choice([1.0, 3.0]))
         fctx = {"far_narrow_box": c, "d": d, "scale": s, "centre": centre, "lower": lo, "upper": hi, "T": T}
         rec.context = fctx
-        ch = guarded(HamiltonianChain, posterior=sp, start=centre.copy(), grad=None, temperature=T, bounds=(lo.copy(), hi.copy()), display_progress=False)
+        fctx["hard_walled"] = hard
+        post_fn = HardWalled(sp, lo, hi) if hard else sp
+        ch = guarded(HamiltonianChain, posterior=post_fn, start=centre.copy(), grad=None, temperature=T, bounds=(lo.copy(), hi.copy()), display_progress=False)
         if isinstance(ch, Raised):
             rec.violation("raised", f"HamiltonianChain construction raised {ch!r}", fctx)
             continue
         w = hi - lo
-        for where in ("interior", "at_lower", "at_upper"):
+        for where in ("interior", "at_lower", "at_upper", "mixed_corner", "mixed_corner", "on_the_walls"):
             t = lo + w * rng.uniform(0.1, 0.9, size=d)
+            near_lo, near_hi = lo + w * 10.0 ** rng.uniform(-9, -5, size=d), hi - w * 10.0 ** rng.uniform(-9, -5, size=d)
             if where == "at_lower":
-                t = lo + w * 10.0 ** rng.uniform(-9, -5, size=d)
+                t = near_lo
             elif where == "at_upper":
-                t = hi - w * 10.0 ** rng.uniform(-9, -5, size=d)
+                t = near_hi
+            elif where == "mixed_corner":
+                # each coordinate on its own: next to its lower wall, next to its upper wall, or inside
+                pick = rng.integers(0, 3, size=d)
+                if d >= 2:
+                    pick[:2] = rng.permutation([0, 1])
+                t = np.where(pick == 0, near_lo, np.where(pick == 1, near_hi, t))
+            elif where == "on_the_walls":
+                pick = rng.integers(0, 3, size=d)
+                t = np.where(pick == 0, lo, np.where(pick == 1, hi, t))
+            if not far and np.any(np.abs(t) < 1e-3 * s) and np.any(t != 0):
+                continue   # the relative step 1e-5*abs(t) of a tiny non-zero coordinate is below the rounding of the log-density
             g = guarded(ch.finite_diff, t.copy())
             true = sp.grad(t)
-            rec.count("finite_diff_checks:far_narrow_box")
+            rec.count("finite_diff_checks:far_narrow_box" if far else "finite_diff_checks:box_near_origin")
+            rec.count("finite_diff_checks:" + where)
             rec.case(digest("fd-far", centre, lo, hi, t), nontrivial=True)
             gs = np.abs(true).max() + 1.0 / s
             # the displaced point is ~1e-3 widths away and the coordinates are ~1e6 widths from zero: rounding of t alone costs ~1e-4
